@@ -5,11 +5,11 @@
 (* scenario's own network.                                                      *)
 EXTENDS Ksp, SearchScn, TraceLib
 VARIABLE l
-tvars == <<scn, queue, g, tree, cur, lastE, todo, iters, outcome, pc, reop, kq, accepted, remaining, kdone, l>>
+tvars == <<scn, queue, g, tree, cur, lastE, todo, iters, outcome, pc, reop, exh, kq, accepted, remaining, kdone, l>>
 Ev == Rec[l]
 Devs == TraceDevs
 Chk(name, cond) == IF cond THEN TRUE ELSE PrintT(<<"FAILED", name, l>>) /\ FALSE
-Frozen == UNCHANGED <<queue, g, tree, cur, lastE, todo, iters, outcome, pc, reop>>
+Frozen == UNCHANGED <<queue, g, tree, cur, lastE, todo, iters, outcome, pc, reop, exh>>
 
 T_KSetup == /\ Ev.ev = "Setup" /\ scn' = ScnOf(Ev)
             /\ kq' = [k |-> Ev.k, sim |-> Ev.sim, alg |-> Ev.kalg, term |-> Ev.term] /\ accepted' = <<>> /\ remaining' = {} /\ kdone' = FALSE
@@ -46,7 +46,7 @@ T_KResult == /\ Ev.ev = "KResult" /\ Enforce("C13") /\ UNCHANGED <<scn, kq, rema
                      /\ Chk("C13 accept-all returns at least as many routes", Ev.n_accept_all < 0 \/ Ev.n_accept_all >= Len(Ev.routes))
                      /\ FALSE
 TInit == /\ l = 1 /\ scn = Idle /\ queue = <<>> /\ g = <<>> /\ tree = <<>> /\ cur = 0 /\ lastE = 0 /\ todo = {} /\ iters = 0
-         /\ outcome = "run" /\ pc = "idle" /\ reop = FALSE
+         /\ outcome = "run" /\ pc = "idle" /\ reop = FALSE /\ exh = -1
          /\ kq = [k |-> 1, sim |-> [type |-> "accept_all", p |-> 0], alg |-> "svp", term |-> [type |-> "exact", n |-> 0]] /\ accepted = <<>> /\ remaining = {} /\ kdone = FALSE
 TNext == l <= Len(Rec) /\ l' = l + 1 /\ (T_KSetup \/ T_KResult \/ T_KResultRoutesOnly)
 TSpec == TInit /\ [][TNext]_tvars
